@@ -127,11 +127,11 @@ pub fn c15_native_config_serialisation() {
         ils::permutation_ils::<PermP>(ils::PermutationProblemParameters { ls_params: ls::PermutationProblemParameters { num_neighbors: 4, num_swap: 3 }, ls_condition: cond(3) }, cond(7)).unwrap(),
     ], &["Scope"]);
     cases += check("real_iwo", vec![
-        iwo::real_iwo::<RealP>(iwo::RealProblemParameters { initial_population_size: 5, max_population_size: 10, min_number_of_seeds: 0, max_number_of_seeds: 5, initial_deviation: 0.1, final_deviation: 1.0, modulation_index: 3 }, cond(7)).unwrap(),
-        iwo::real_iwo::<RealP>(iwo::RealProblemParameters { initial_population_size: 5, max_population_size: 11, min_number_of_seeds: 0, max_number_of_seeds: 5, initial_deviation: 0.1, final_deviation: 1.0, modulation_index: 3 }, cond(7)).unwrap(),
-        iwo::real_iwo::<RealP>(iwo::RealProblemParameters { initial_population_size: 5, max_population_size: 10, min_number_of_seeds: 1, max_number_of_seeds: 5, initial_deviation: 0.1, final_deviation: 1.0, modulation_index: 3 }, cond(7)).unwrap(),
-        iwo::real_iwo::<RealP>(iwo::RealProblemParameters { initial_population_size: 5, max_population_size: 10, min_number_of_seeds: 0, max_number_of_seeds: 5, initial_deviation: 0.1, final_deviation: 2.0, modulation_index: 3 }, cond(7)).unwrap(),
-        iwo::real_iwo::<RealP>(iwo::RealProblemParameters { initial_population_size: 5, max_population_size: 10, min_number_of_seeds: 0, max_number_of_seeds: 5, initial_deviation: 0.1, final_deviation: 1.0, modulation_index: 2 }, cond(7)).unwrap(),
+        iwo::real_iwo::<RealP>(iwo::RealProblemParameters { initial_population_size: 5, max_population_size: 10, min_number_of_seeds: 0, max_number_of_seeds: 5, initial_deviation: 1.0, final_deviation: 0.1, modulation_index: 3 }, cond(7)).unwrap(),
+        iwo::real_iwo::<RealP>(iwo::RealProblemParameters { initial_population_size: 5, max_population_size: 11, min_number_of_seeds: 0, max_number_of_seeds: 5, initial_deviation: 1.0, final_deviation: 0.1, modulation_index: 3 }, cond(7)).unwrap(),
+        iwo::real_iwo::<RealP>(iwo::RealProblemParameters { initial_population_size: 5, max_population_size: 10, min_number_of_seeds: 1, max_number_of_seeds: 5, initial_deviation: 1.0, final_deviation: 0.1, modulation_index: 3 }, cond(7)).unwrap(),
+        iwo::real_iwo::<RealP>(iwo::RealProblemParameters { initial_population_size: 5, max_population_size: 10, min_number_of_seeds: 0, max_number_of_seeds: 5, initial_deviation: 1.0, final_deviation: 0.2, modulation_index: 3 }, cond(7)).unwrap(),
+        iwo::real_iwo::<RealP>(iwo::RealProblemParameters { initial_population_size: 5, max_population_size: 10, min_number_of_seeds: 0, max_number_of_seeds: 5, initial_deviation: 1.0, final_deviation: 0.1, modulation_index: 2 }, cond(7)).unwrap(),
     ], &["DeterministicFitnessProportional", "MuPlusLambda"]);
     cases += check("real_mu_plus_lambda_es", vec![
         es::real_mu_plus_lambda_es::<RealP, ()>(es::RealProblemParameters { population_size: 5, lambda: 10, deviation: 0.1 }, cond(7)).unwrap(),
